@@ -61,9 +61,10 @@ type termKey struct {
 	op         Op
 	w          uint8
 	val        uint64
-	name       string
 	a0, a1, a2 int32
 }
+
+var varTab = map[string]*Term{}
 
 var (
 	termTab   = map[termKey]*Term{}
@@ -93,13 +94,21 @@ func mask(w uint8) uint64 {
 }
 
 func mk(op Op, w uint8, val uint64, name string, a0, a1, a2 *Term) *Term {
-	k := termKey{op, w, val, name, tid(a0), tid(a1), tid(a2)}
-	if t, ok := termTab[k]; ok {
+	k := termKey{op, w, val, tid(a0), tid(a1), tid(a2)}
+	if op == OpVar {
+		if t, ok := varTab[name]; ok {
+			return t
+		}
+	} else if t, ok := termTab[k]; ok {
 		return t
 	}
 	t := &Term{id: termCount, op: op, w: w, val: val, name: name, a: [3]*Term{a0, a1, a2}}
 	termCount++
-	termTab[k] = t
+	if op == OpVar {
+		varTab[name] = t
+	} else {
+		termTab[k] = t
+	}
 	// interval + const-tree info
 	if w > 0 {
 		t.lo, t.hi = 0, mask(w)
@@ -1117,4 +1126,67 @@ func maskB(w uint8) uint64 {
 		return 1
 	}
 	return mask(w)
+}
+
+// ---------- single-variable conditions over small domains ----------
+
+var multiVar = &Term{id: -2}
+var termVarCache = map[*Term]*Term{}
+
+// singleVar returns the only variable t depends on, nil if none, multiVar if several.
+func singleVar(t *Term) *Term {
+	switch t.op {
+	case OpConst:
+		return nil
+	case OpVar:
+		return t
+	}
+	if v, ok := termVarCache[t]; ok {
+		return v
+	}
+	var res *Term
+	for _, a := range t.a {
+		if a == nil {
+			continue
+		}
+		v := singleVar(a)
+		if v == nil {
+			continue
+		}
+		if v == multiVar || (res != nil && res != v) {
+			res = multiVar
+			break
+		}
+		res = v
+	}
+	termVarCache[t] = res
+	return res
+}
+
+// domMask evaluates the boolean term c for every value of v in dom (bit i =
+// value v.lo+i) and returns the subset on which it is true.
+func domMask(c, v *Term, dom uint64) uint64 {
+	var m uint64
+	model := map[string]uint64{}
+	for i := uint64(0); i < 64; i++ {
+		if dom&(1<<i) == 0 {
+			continue
+		}
+		model[v.name] = v.lo + i
+		if evalTerm(c, model, map[*Term]uint64{}) == 1 {
+			m |= 1 << i
+		}
+	}
+	return m
+}
+
+func fullDom(v *Term) (uint64, bool) {
+	if v.w == 0 || v.hi-v.lo >= 64 {
+		return 0, false
+	}
+	n := v.hi - v.lo + 1
+	if n == 64 {
+		return ^uint64(0), true
+	}
+	return (uint64(1) << n) - 1, true
 }
